@@ -31,6 +31,23 @@ def budget(tier):
     return {"runs": 360, "wall": 300, "selftest": 12, "shrink_s": 20}
 
 
+def directed(tier):
+    """Exact encoded data-set lengths around the peer's maximum, its fragment size (maximum - 6) and their multiples,
+    and the asymmetric configurations in which one side announces 0 (= unlimited) and the other a finite maximum."""
+    out = []
+    for rmax in (128, 1024, 16382) if tier == "thorough" else (128, 16382):
+        f = rmax - 6
+        lens = sorted(set(x for base in (f, rmax, 2 * f, 2 * rmax) for x in range(base - 8, base + 9, 2) if x > 110))
+        for ln in lens:
+            out.append({"kind": "real", "scu_max": 16382, "scp_max": rmax, "pad": 0, "exact_len": ln, "chunked_send": False,
+                        "chunked_recv": False, "find": False, "sched": {"switch_pct": 20}, "net": {"seg": "whole"}})
+    for smax, rmax in ((0, 128), (0, 1024), (0, 16382), (128, 0), (16382, 0), (0, 0), (1024, 128), (128, 1024)):
+        for ln in (120, 2000, 40000):
+            out.append({"kind": "real", "scu_max": smax, "scp_max": rmax, "pad": 0, "exact_len": ln, "chunked_send": False,
+                        "chunked_recv": False, "find": True, "sched": {"switch_pct": 20}, "net": {"seg": "whole"}})
+    return out
+
+
 def gen(rng, idx, tier):
     if idx % 4 == 3:
         return {"kind": "raw", "acc_max": rng.choice(MAXES), "n": rng.choice([0, 1, 10, 57, 300]),
@@ -150,7 +167,16 @@ def execute(sc, ctx):
             ctx.obs["established"] = assoc.is_established
             if not assoc.is_established:
                 return
-            ds = C.store_ds(0, extra_bytes=sc["pad"])
+            pad = sc["pad"]
+            if sc.get("exact_len") is not None:
+                # choose the padding so that the encoded data set is exactly `exact_len` bytes long (an even number
+                # at least 10 above the unpadded length: element header 8 bytes + an even value length)
+                l0 = len(encode(C.store_ds(0, extra_bytes=0), True, True))
+                pad = sc["exact_len"] - l0 - 8
+                if pad < 2 or pad % 2:
+                    ctx.obs["skipped"] = "exact length %d not reachable (base %d)" % (sc["exact_len"], l0)
+                    pad = max(2, pad + pad % 2)
+            ds = C.store_ds(0, extra_bytes=pad)
             ctx.obs["sent_ds"] = encode(ds, True, True)
             if sc["chunked_send"]:
                 path = os.path.join(tmpdir, "in.dcm")
@@ -268,7 +294,7 @@ def nontrivial(sc, r):
     if sc["kind"] == "raw":
         return ("raw", sc["acc_max"], sc["n"], sc["group"], sc["gseed"], sc["chunked_recv"]) if npd > 1 or sc["group"] != "all_in_one" else None
     if npd > 2 or sc["scu_max"] != sc["scp_max"]:
-        return ("real", sc["scu_max"], sc["scp_max"], sc["pad"], sc["chunked_send"], sc["chunked_recv"], sc["find"])
+        return ("real", sc["scu_max"], sc["scp_max"], sc["pad"], sc.get("exact_len"), sc["chunked_send"], sc["chunked_recv"], sc["find"])
     return None
 
 
